@@ -1411,15 +1411,39 @@ func c08Verbatim(c *Ctx, p *Prog) {
 		return
 	}
 	n := 0
+	// helpers that intern one of their parameters as it comes (setField(row, field, val)): judged at their call sites
+	wrapper := map[*ssa.Function]int{}
+	for _, h := range p.Funcs("benchproc") {
+		if h == intern || h.Parent() != nil {
+			continue
+		}
+		eachInstr(h, func(_ *ssa.BasicBlock, in ssa.Instruction) {
+			if call, ok := in.(*ssa.Call); ok && call.Call.StaticCallee() == intern {
+				a := stripConv(callArgs(&call.Call)[1])
+				for i, prm := range h.Params {
+					if a == ssa.Value(prm) {
+						wrapper[h] = i
+					}
+				}
+			}
+		})
+	}
 	var visit func(fn *ssa.Function)
 	visit = func(fn *ssa.Function) {
 		eachInstr(fn, func(_ *ssa.BasicBlock, in ssa.Instruction) {
 			call, ok := in.(*ssa.Call)
-			if !ok || call.Call.StaticCallee() != intern {
+			if !ok {
+				return
+			}
+			var arg ssa.Value
+			if call.Call.StaticCallee() == intern {
+				arg = callArgs(&call.Call)[1]
+			} else if i, isW := wrapper[call.Call.StaticCallee()]; isW && call.Call.StaticCallee() != nil {
+				arg = callArgs(&call.Call)[i]
+			} else {
 				return
 			}
 			n++
-			arg := callArgs(&call.Call)[1]
 			var okArg func(v ssa.Value, d int) bool
 			okArg = func(v ssa.Value, d int) bool {
 				if d > 4 {
